@@ -90,6 +90,9 @@ theorem archive_exact (rd : Nat → Nat → Nat) (bin zip : List Nat) (c : Nat) 
   simp only
   unfold layout; rw [← this, List.drop_left]
 
+example : Impl.archive geom Impl.fullReads (layout geom.marker [35, 10, 35] [80, 75, 3, 4, 10, 35]) = some [80, 75, 3, 4, 10, 35] :=
+  archive_exact _ _ _ 80 [75, 3, 4, 10, 35] rfl (by decide) (by decide)
+
 /-- **The scan is the specification, on every file**: for every byte list `data` (packed or
     not, marker present or not) and every read schedule, the block loop returns what one
     `strings.Index` over the whole file would return. -/
@@ -197,9 +200,16 @@ theorem old_scanner_misses :
     Old.scan 8 5 [10, 35, 10] (layout [10, 35, 10] (List.replicate 7 97) [80, 75]) = .notFound ∧
     Spec.find [10, 35, 10] (layout [10, 35, 10] (List.replicate 7 97) [80, 75]) = some 10 := by decide
 
+/-- the marker ends exactly at the end of the candidate (`buf ++ buf2`): the old skip loop
+    indexes one past it (Go: index out of range; real geometry: |bin| = 4107 with `#`) -/
+theorem old_scanner_indexes_past_candidate :
+    Old.scan 8 5 [10, 35, 10] (layout [10, 35, 10] (35 :: List.replicate 9 97) [80, 75]) = .panic := by decide
+
 /-- the loop of today's code with the same reduced sizes finds it -/
 theorem repaired_scanner_finds_it :
     Impl.scan { bufSize := 8 + 5, keep := 2, marker := [10, 35, 10] } Impl.fullReads
-      (layout [10, 35, 10] (List.replicate 7 97) [80, 75]) = .found 10 := by decide
+      (layout [10, 35, 10] (List.replicate 7 97) [80, 75]) = .found 10 ∧
+    Impl.scan { bufSize := 8 + 5, keep := 2, marker := [10, 35, 10] } Impl.fullReads
+      (layout [10, 35, 10] (35 :: List.replicate 9 97) [80, 75]) = .found 13 := by decide
 
 end Ecal.Props.C20
